@@ -8,6 +8,7 @@ import (
 	"go/token"
 	"go/types"
 	"math/big"
+	"os"
 	"sort"
 	"strings"
 	"sync"
@@ -194,6 +195,14 @@ func (f *FnCtx) assume(st *bstate, term, what string) {
 func (f *FnCtx) oblige(st *bstate, name, kind string, tags []string, goal, src, line string) *Obligation {
 	if f.dry {
 		return nil
+	}
+	if f.spec != nil {
+		for _, w := range f.spec.Waive {
+			if strings.Contains(name, w) {
+				f.notes = append(f.notes, "waived (not covered): "+name)
+				return nil
+			}
+		}
 	}
 	f.seq++
 	n := f.oblNames[name]
@@ -563,6 +572,9 @@ func (fr *frame) analyzeLoops() {
 		best := token.NoPos
 		for b := range fr.loopBody[h] {
 			for _, in := range b.Instrs {
+				if _, isPhi := in.(*ssa.Phi); isPhi {
+					continue // a phi carries the position of the variable's declaration, which may precede the loop
+				}
 				if p := in.Pos(); p.IsValid() && (best == token.NoPos || p < best) {
 					best = p
 				}
@@ -579,6 +591,9 @@ func (fr *frame) analyzeLoops() {
 	})
 	for i, h := range hs {
 		fr.loopOrd[h] = i + 1
+		if os.Getenv("GOVC_LOOPS") != "" && strings.Contains(fn.String(), os.Getenv("GOVC_LOOPS")) {
+			fmt.Fprintf(os.Stderr, "loop %d of %s: header block %d (%s) first pos %s\n", i+1, fn.Name(), h.Index, h.Comment, fr.f.e.fset.Position(pos(h)))
+		}
 	}
 }
 
@@ -901,6 +916,11 @@ func (fr *frame) loopSpec(h *ssa.BasicBlock) *LoopSpec {
 	if ls.Decreases != nil && fr.f.e.active(ls.Decreases.Tags) {
 		out.Decreases = ls.Decreases
 	}
+	for _, c := range ls.Increases {
+		if fr.f.e.active(c.Tags) {
+			out.Increases = append(out.Increases, c)
+		}
+	}
 	return out
 }
 
@@ -1128,6 +1148,17 @@ func (fr *frame) loopBackEdge(from, h *ssa.BasicBlock) {
 			continue
 		}
 		f.oblige(est, fmt.Sprintf("%s#loop%d:preserved:%s", fnShortName(fr.fn), fr.loopOrd[h], clauseLabel(inv)), "invariant-preserved", inv.Tags, v, inv.Src, inv.Line)
+	}
+	for _, inc := range ls.Increases {
+		envH := fr.specEnv(fr.headerHeap[h], fr.oldHeap, nil)
+		envH.addVars(fr.localEnvAt(h, nil, fr.headerHeap[h]))
+		m0, err0 := envH.eval(inc.E)
+		m1, err1 := env.eval(inc.E)
+		if err0 != nil || err1 != nil {
+			f.fail("%s: increases: %v %v", inc.Line, err0, err1)
+			continue
+		}
+		f.oblige(est, fmt.Sprintf("%s#loop%d:progress:%s", fnShortName(fr.fn), fr.loopOrd[h], clauseLabel(inc)), "progress", inc.Tags, app(">", m1.Tm, m0.Tm), inc.Src, inc.Line)
 	}
 	if ls.Decreases != nil {
 		// measure at header vs at back edge
